@@ -36,6 +36,9 @@ SHARD_TIMEOUT = {'quick': 900, 'thorough': 3600}
 REG = {'ADT^A01^ADT_A01': 'OkHandler', 'ADT^A01': 'OkHandler', 'ORU^R01^ORU_R01': 'OtherHandler'}
 
 
+REG_ARGS = {'ADT^A01^ADT_A01': ['x', 1], 'ADT^A01': [], 'ORU^R01^ORU_R01': [], 'ERR': ['e1', 2]}
+
+
 def plan(tier, seed):
     specs = [{'kind': 'splits', 'part': p, 'parts': 4} for p in range(4)]
     specs += [{'kind': 'random_splits', 'part': p, 'n': 150 if tier == 'quick' else 2500} for p in range(4)]
@@ -49,7 +52,8 @@ def plan(tier, seed):
 
 def handlers_for(hist, delay=None):
     Ok, Other, Err = mllpdrv.make_handlers(hist, delay)
-    return {'ADT^A01^ADT_A01': (Ok, 'x', 1), 'ADT^A01': (Ok,), 'ORU^R01^ORU_R01': (Other,), 'ERR': (Err,)}
+    # (handlers may be registered with extra arguments: the error handler too)
+    return {'ADT^A01^ADT_A01': (Ok, 'x', 1), 'ADT^A01': (Ok,), 'ORU^R01^ORU_R01': (Other,), 'ERR': (Err, 'e1', 2)}
 
 
 def one_connection(drv, hist, chunks, payload, kind, rec, case, sig, nontrivial=True, client_wait=8.0, reg=None):
@@ -71,7 +75,8 @@ def one_connection(drv, hist, chunks, payload, kind, rec, case, sig, nontrivial=
     if alive:
         rec.violation('handler-thread-still-running', case, {'ending': ending})
         return
-    for cause, detail in mllpdrv.check_connection(evs, payload, received, ending, reg or REG, kind):
+    for cause, detail in mllpdrv.check_connection(evs, payload, received, ending, reg or REG, kind,
+                                                  None if reg else REG_ARGS):
         rec.violation(cause, case, detail)
     rec.count('connections_checked:%s' % kind)
     rec.seen('endings', ending)
@@ -121,9 +126,10 @@ def random_text(rng, kind):
     for i in range(rng.randint(0, 6)):
         name = rng.choice(['PID', 'PV1', 'OBX', 'NK1', 'ZZ1'])
         val = rng.choice(['x', 'Müller^Jörg', '日本語', 'a b c', 'A^B&C~D', 'é', '\U0001F600',
-                          'x' * rng.randint(1, 400)])
+                          'x' * rng.randint(1, 400), 'first line\nsecond line', 'tab\there', '\n'])
         lines.append('%s|%d|%s' % (name, i + 1, val))
-    return '\r'.join(lines)
+    # segments end with CR; senders that end them with CR LF are tolerated by the parser and framed like any other text
+    return ('\r\n' if rng.random() < 0.1 else '\r').join(lines)
 
 
 def run_random_splits(spec, rec):
